@@ -181,7 +181,7 @@ def write_svg(matrix, matrix_size, out, colormap, scale=1, border=None, xmldecl=
     if omit_encoding:
         encoding = 'utf-8'
     allow_css3_colors = svgversion is not None and svgversion >= 2.0
-    is_multicolor = len(set(colormap.values())) > 2
+    is_multicolor = len(set(colormap.values())) > 2 or not _is_two_tone(colormap)
     need_background = not is_multicolor and colormap[consts.TYPE_QUIET_ZONE] is not None
     need_svg_group = scale != 1 and (need_background or is_multicolor)
     if is_multicolor:
@@ -561,7 +561,7 @@ def write_png(matrix, matrix_size, out, colormap, scale=1, border=None, compress
             # Since black is zero, it should be the first entry
             palette = [black, transparent]
         png_trans_idx = palette.index(transparent)
-    if number_of_colors > 2:
+    if number_of_colors > 2 or not _is_two_tone(clr_map):
         # Need the more expensive matrix iterator
         miter = matrix_iter_verbose(matrix, matrix_size, scale=1, border=0)
         color_index = {module_type: palette.index(clr) for module_type, clr in clr_map.items()}
@@ -1548,6 +1548,19 @@ def _make_colormap(matrix_width, matrix_height, dark, light,
         consts.TYPE_QUIET_ZONE: quiet_zone if quiet_zone is not False else light,
     }
     return {mt: val for mt, val in mt2color.items() if mt not in unsupported}
+
+
+def _is_two_tone(colormap):
+    """\
+    Returns if all dark module types share one color and all light module
+    types (incl. separator and quiet zone) share one color.
+
+    Only in this case the cheap matrix iterator (which distinguishes dark and
+    light modules only) renders the same image as the verbose iterator.
+    """
+    dark = {clr for mt, clr in colormap.items() if mt >> 8}
+    light = {clr for mt, clr in colormap.items() if not mt >> 8}
+    return len(dark) == 1 and len(light) == 1
 
 
 _VALID_SERIALIZERS = {
